@@ -667,7 +667,7 @@ def build():
                ("C01.remove.len", "final(self).len + (if old(self).view().dom().contains(entity_identifier) { 1int } else { 0int }) == old(self).len"),
                ("C02.remove.generations", "final(self).entity_allocator.slots@.len() == old(self).entity_allocator.slots@.len() && forall|s: int| 0 <= s < old(self).entity_allocator.slots@.len() ==> (#[trigger] final(self).entity_allocator.slots@[s]).generation == old(self).entity_allocator.slots@[s].generation"),
            ],
-           hints=[Hint("start", "let ghost vx_w0 = *self; proof { lemma_count_bound(self.entity_allocator.slots@); }"),
+           hints=[Hint("start", "let ghost vx_w0 = *self; proof { lemma_count_bound(self.entity_allocator.slots@); if self.entity_allocator.resolves(entity_identifier) { lemma_count_positive(self.entity_allocator.slots@, entity_identifier.index as int); } }"),
                   Hint("before", "let ghost vx_mid = *self;", anchor=r"unsafe \{\s*self\.entity_allocator\.free_unchecked\(entity_identifier\)"),
                   Hint("after", REMOVE_PROOF, anchor=r"self\.entity_allocator\.free_unchecked\(entity_identifier\)"),
                   Hint("end", "proof { if !vx_w0.entity_allocator.resolves(entity_identifier) { assert(self.view() =~= vx_w0.view().remove(entity_identifier)); } }")],
